@@ -612,9 +612,9 @@ class PseudoNetCDFFile(PseudoNetCDFSelfReg, object):
         # left = dimevals[0] - 1
         # right = dimevals[-1] + 1
         if method == 'bounds':
+            # the outermost edge belongs to the last cell
+            idx = np.minimum(idx, dimvals.size - 1)
             fidx = np.interp(val, dimevals, idx, left=left, right=right)
-            if right is None or right == dimevals[-1]:
-                fidx = np.minimum(fidx, dimvals.size - 1)
         else:
             fidx = np.interp(val, dimvals, idx, left=left, right=right)
 
